@@ -636,7 +636,21 @@ pub fn honest_cases(rng: &mut Rng, thorough: bool) -> Vec<BodyCase> {
         }
     }
     // requests from the C03-C05 generators, entity lengths at the boundaries
-    let lens: [u64; 9] = [0, 1, 2, 239, 240, 241, 1 << 32, 1 << 63, u64::MAX];
+    let lens: [u64; 13] = [
+        0,
+        1,
+        2,
+        239,
+        240,
+        241,
+        1 << 32,
+        1 << 63,
+        u64::MAX,
+        1_000_000_000_000_000,
+        10_000_000_000_000_000,
+        999_999_999_999_999_999,
+        10_000_000_000_000_000_000,
+    ];
     let n = if thorough { 100_000 } else { 3_000 };
     for _ in 0..n {
         let len = *rng.pick(&lens);
@@ -659,7 +673,18 @@ pub fn honest_cases(rng: &mut Rng, thorough: bool) -> Vec<BodyCase> {
                 // keep ranges small so that they can be drained
                 let specs: Vec<RenderedSpec> = (0..k)
                     .map(|_| {
-                        let a = if len > 0 { rng.below(len) } else { 0 } as u128;
+                        let a = if len > 1_000_000 && rng.chance(1, 2) {
+                            // just below a power of ten (digit-width boundary)
+                            let mut p = 10u64.pow(6 + rng.below(14) as u32);
+                            while p >= len {
+                                p /= 10;
+                            }
+                            p - 1 - rng.below(30)
+                        } else if len > 0 {
+                            rng.below(len)
+                        } else {
+                            0
+                        } as u128;
                         let w = rng.below(50) as u128;
                         plain(match rng.below(4) {
                             0 => Spec::Suffix(w),
@@ -682,7 +707,9 @@ pub fn honest_cases(rng: &mut Rng, thorough: bool) -> Vec<BodyCase> {
         }
         let o = observe_serve(&q, &e);
         let rs = ranges_of(&o);
-        if rs.iter().any(|&(a, b)| b - a > 4096) {
+        if rs.iter().any(|&(a, b)| b - a > 4096)
+            || matches!(o.plan, Plan::MultipartHead(..) | Plan::Unknown(_))
+        {
             // cannot drain honestly; covered by the head-only comparison of C03/C06
             continue;
         }
@@ -898,7 +925,7 @@ pub fn c06(em: &mut Emit, thorough: bool, seed: u64) {
     let mut rng = Rng::new(seed ^ 0xC06);
     c06_huge(em, &mut rng, if thorough { 20_000 } else { 1_500 });
     let n = if thorough { 60_000 } else { 2_500 };
-    let lens: [u64; 8] = [
+    let lens: [u64; 14] = [
         300,
         999,
         1000,
@@ -907,6 +934,12 @@ pub fn c06(em: &mut Emit, thorough: bool, seed: u64) {
         (1 << 63) + 5,
         u64::MAX - 1,
         u64::MAX,
+        999_999_999_999_999,
+        1_000_000_000_000_000,
+        10_000_000_000_000_000,
+        999_999_999_999_999_999,
+        1_000_000_000_000_000_000,
+        10_000_000_000_000_000_000,
     ];
     for i in 0..n {
         let len = *rng.pick(&lens);
@@ -925,7 +958,21 @@ pub fn c06(em: &mut Emit, thorough: bool, seed: u64) {
         let k = 2 + rng.usize(7);
         // ranges: overlapping, adjacent, duplicated, out of order; short so they can be drained,
         // positioned anywhere including the very end (digit widths up to 20)
-        let anchors: Vec<u64> = vec![0, 1, 9, 10, 99, 100, len / 2, len - 50, len - 10, len - 1];
+        let mut anchors: Vec<u64> = vec![0, 1, 9, 10, 99, 100, len / 2, len - 50, len - 10, len - 1];
+        // digit-width boundaries: just below and at every power of ten
+        let mut p10 = 10u64;
+        while p10 < len {
+            for d in [1u64, 2, 21, 407] {
+                if p10 > d {
+                    anchors.push(p10 - d);
+                }
+            }
+            anchors.push(p10);
+            p10 = match p10.checked_mul(10) {
+                Some(x) => x,
+                None => break,
+            };
+        }
         let mut specs = vec![];
         let mut prev: Option<(u128, u128)> = None;
         for _ in 0..k {
